@@ -295,16 +295,21 @@ AncestorsAreDirs(T, p) == \A i \in 1..(Len(p) - 1) : SubSeq(p, 1, i) \in DOMAIN 
 ContainmentMonitors(h, f, b, T, loud, nerr, opened, how, dk) ==
     LET hl == StitchOf(h, b)
         \* the entry's own index hunk or one of its blocks is the damaged file
+        \* (a damaged head or tail touches every entry of its version as far as "untouched" goes: a
+        \* flipped bit may leave the file decodable for the independent reader and still make the version
+        \* unopenable, e.g. a changed format-version string)
+        HeadTouched(e) == dk.t \in {"Head", "Tail"} /\ dk.b \in Bands(h) /\ e \in SeqRange(OwnEntries(h, dk.b))
         Affected(e) == \/ dk.t = "Block" /\ \E i \in 1..Len(e.a) : e.a[i].h = dk.h
                        \/ dk.t = "Hunk" /\ dk.b \in Bands(h) /\ dk.n \in DOMAIN h.bands[dk.b].hunks
                                         /\ e \in SeqRange(h.bands[dk.b].hunks[dk.n].es)
+
         fl == StitchOf(f, b)
         HT == RestoreOf(h, b)
         \* file entries still listed unchanged whose blocks are all intact and unchanged
         \* ("each file whose index hunk and blocks are untouched": an entry of the damaged hunk is not
         \* untouched even when a flipped bit changed another entry of that hunk only)
         untouched == {e \in SeqRange(fl) : e.k = "File" /\ e \in SeqRange(hl) /\ EntryReadable(f, e) /\ EntryReadable(h, e)
-                         /\ FileBytes(f, e) = FileBytes(h, e) /\ ~Affected(e)}
+                         /\ FileBytes(f, e) = FileBytes(h, e) /\ ~Affected(e) /\ ~HeadTouched(e)}
         \* (its directories must still be listed too: a file whose directory entry sat in the damaged
         \* hunk cannot be created, which is reported)
         ListedDirs(p) == \A i \in 1..(Len(p) - 1) : \E d \in SeqRange(fl) : d.p = SubSeq(p, 1, i) /\ d.k = "Dir"
